@@ -269,6 +269,21 @@ static int tcpListener(std::uint16_t &port, int backlog)
   return fd;
 }
 
+// a port nobody listens on: bound (so the number stays reserved for the whole run and cannot be handed to another
+// socket of the harness) but never put into the listening state, so connections are refused
+static int reservedClosedPort(std::uint16_t &port)
+{
+  int fd = ::socket(AF_INET, SOCK_STREAM, 0);
+  sockaddr_in a{};
+  a.sin_family = AF_INET;
+  a.sin_addr.s_addr = htonl(INADDR_LOOPBACK);
+  ::bind(fd, reinterpret_cast<sockaddr *>(&a), sizeof(a));
+  socklen_t l = sizeof(a);
+  ::getsockname(fd, reinterpret_cast<sockaddr *>(&a), &l);
+  port = ntohs(a.sin_port);
+  return fd;
+}
+
 static std::string real(const std::string &scenario, int callers, int timeoutMs)
 {
   TransportConfig cfg;
@@ -288,7 +303,7 @@ static std::string real(const std::string &scenario, int callers, int timeoutMs)
   if (!tr->start().isOk()) return "STARTFAIL";
   std::uint16_t okPort = 0, refusedPort = 0, holePort = 0;
   int okL = tcpListener(okPort, 256);
-  { int f = tcpListener(refusedPort, 1); ::close(f); }
+  int refusedFd = reservedClosedPort(refusedPort);
   int holeL = tcpListener(holePort, 0);
   std::vector<int> fill;
   for (int i = 0; i < 3; ++i)
@@ -409,6 +424,71 @@ static std::string real(const std::string &scenario, int callers, int timeoutMs)
   ::close(okL);
   ::close(holeL);
   ::close(garbL);
+  ::close(refusedFd);
+  return verdict.empty() ? "R ok" : "R" + verdict;
+}
+
+
+// the I/O thread is busy in a slow user callback while a connectSync times out: the close it issues is queued BEHIND the
+// connect command that has not been executed yet; once the I/O thread resumes the connection must still be closed
+static std::string slowIo(int timeoutMs)
+{
+  TransportConfig cfg;
+  cfg.protocol = Protocol::TCP;
+  cfg.idleTimeout = std::chrono::seconds(3600);
+  auto tr = Transport::tcp(cfg);
+  auto *eng = static_cast<TcpEngine *>(tr->_impl->engine.get());
+  std::atomic<bool> slept{false};
+  std::atomic<int> globals{0};
+  SessionId first = 0;
+  tr->onData([&](SessionId, iora::core::BufferView, Clock::time_point)
+  {
+    if (!slept.exchange(true)) std::this_thread::sleep_for(std::chrono::milliseconds(timeoutMs * 4));
+  });
+  tr->onConnect([&](SessionId s, const TransportAddress &) { if (s != first) globals++; });
+  tr->onClose([&](SessionId s, const TransportErrorInfo &) { if (s != first) globals++; });
+  if (!tr->start().isOk()) return "STARTFAIL";
+  std::uint16_t port = 0;
+  int lfd = tcpListener(port, 16);
+  auto r1 = tr->connectSync("127.0.0.1", port, TlsMode::None, std::chrono::milliseconds(2000));
+  if (!r1.isOk()) { tr->stop(); ::close(lfd); return "SETUPFAIL"; }
+  first = r1.value();
+  int p1 = ::accept(lfd, nullptr, nullptr);
+  (void)!::write(p1, "wake", 4);                       // the data callback now holds the I/O thread
+  for (int i = 0; i < 2000 && !slept.load(); ++i) std::this_thread::sleep_for(std::chrono::microseconds(500));
+  auto t0 = Clock::now();
+  auto r2 = tr->connectSync("127.0.0.1", port, TlsMode::None, std::chrono::milliseconds(timeoutMs));
+  long ms = std::chrono::duration_cast<std::chrono::milliseconds>(Clock::now() - t0).count();
+  std::string verdict;
+  if (r2.isOk() || r2.error().code != TransportError::Timeout) verdict += " wrong-result:" + (r2.isOk() ? std::string("ok") : codeName(r2.error().code));
+  if (ms > timeoutMs + 1000) verdict += " late-return:" + std::to_string(ms) + "ms";
+  // the I/O thread resumes, runs the queued connect, then the queued close
+  std::this_thread::sleep_for(std::chrono::milliseconds(timeoutMs * 4 + 300));
+  std::size_t open;
+  { std::shared_lock<std::shared_mutex> rl(eng->_sessionRwMutex); open = eng->_sessions.size(); }
+  if (open != 1) verdict += " open-sessions=" + std::to_string(open) + "-handed=1";
+  // the peer's view of the second connection: accepted, then closed by the client
+  pollfd pf{lfd, POLLIN, 0};
+  if (::poll(&pf, 1, 500) > 0)
+  {
+    int p2 = ::accept(lfd, nullptr, nullptr);
+    if (p2 >= 0)
+    {
+      pollfd pr{p2, POLLIN, 0};
+      char b;
+      bool closedByClient = ::poll(&pr, 1, 1000) > 0 && ::read(p2, &b, 1) == 0;
+      if (!closedByClient) verdict += " timed-out-connection-left-open";
+      ::close(p2);
+    }
+  }
+  if (globals.load() != 0) verdict += " global-callback-for-unhanded-id:" + std::to_string(globals.load());
+  {
+    std::lock_guard<std::mutex> lk(tr->_impl->syncMutex);
+    if (!tr->_impl->pendingConnects.empty()) verdict += " pending-entries-left=" + std::to_string(tr->_impl->pendingConnects.size());
+  }
+  tr->stop();
+  ::close(p1);
+  ::close(lfd);
   return verdict.empty() ? "R ok" : "R" + verdict;
 }
 
@@ -428,6 +508,7 @@ int main(int argc, char **argv)
     try
     {
       if (p[0] == "S" && p.size() >= 2) r = scripted(split(p[1], ';'));
+      else if (p[0] == "R" && p.size() >= 4 && p[1] == "slowio") r = slowIo(std::stoi(p[3]));
       else if (p[0] == "R" && p.size() >= 4) r = real(p[1], std::stoi(p[2]), std::stoi(p[3]));
       else r = "BADCASE";
     }
